@@ -98,11 +98,15 @@ def cell_symbol(t, v):
 
 
 def project_matrix(m, t=None):
+    # raw attributes only (no iterator of the matrix): the rows are the entries of the taxon -> sequence map,
+    # in the order of the taxon namespace
     t = t or m.data_type
     taxa, rows = [], []
-    for tx in m:
-        taxa.append(chars(tx.label if tx.label is not None else ""))
-        rows.append([cell_symbol(t, v) for v in m[tx].values()])
+    seqmap = m._taxon_sequence_map
+    for tx in m.taxon_namespace._taxa:
+        if tx in seqmap:
+            taxa.append(chars(tx.label if tx.label is not None else ""))
+            rows.append([cell_symbol(t, v) for v in seqmap[tx]._character_values])
     return {"type": m.data_type, "taxa": taxa, "rows": rows}
 
 
@@ -164,6 +168,121 @@ def build_exported_typed(dendropy, am, junk):
     parent = cls.get(data=render("nexml", st), schema="nexml")
     n = max(len(r) for r in am["rows"])
     return parent.export_character_indices([2 * j + 1 for j in range(n)])
+
+
+ROW_OPS = ["extend_matrix", "extend_sequences_new", "add_sequences", "update_sequences", "new_sequence", "setitem"]
+COL_OPS = ["extend_columns", "extend_sequences", "replace_sequences", "fill", "remove_sequences", "delitem"]
+OBSERVATIONS = ["nexus", "fasta", "nexml", "phylip", "iter", "values", "items", "max_sequence_size"]
+
+
+def observe(m, how):
+    """an observation of the matrix in the middle of its construction (may populate caches)"""
+    t = m.data_type
+    if how in ("nexus", "fasta", "nexml", "phylip") and t in SUPPORTS[how] and not (how == "phylip" and len(m) != len(m.taxon_namespace)):
+        m.as_string(schema=how)
+    elif how == "values":
+        list(m.values())
+    elif how == "items":
+        list(m.items())
+    elif how == "max_sequence_size":
+        m.max_sequence_size
+        list(m.sequences())
+    else:
+        list(iter(m))
+
+
+def _part(am, rows_idx, c0, c1):
+    return {"type": am["type"], "taxa": [am["taxa"][i] for i in rows_idx], "rows": [am["rows"][i][c0:c1] for i in rows_idx]}
+
+
+def _from_dict_like(dendropy, target, part):
+    """another matrix over the namespace (and, for standard data, the state alphabet) of `target`"""
+    cls = type(target)
+    d = collections.OrderedDict((lab(l), _values(part["type"], r)) for l, r in zip(part["taxa"], part["rows"]))
+    kw = {"taxon_namespace": target.taxon_namespace}
+    if part["type"] == "standard":
+        kw["default_state_alphabet"] = target.default_state_alphabet
+    return cls.from_dict(d, **kw)
+
+
+def build_observed(dendropy, am, op, obs, junk):
+    """two-phase route: build a first version, observe it (write / iterate), then complete it with a row or column
+    operation so that the final content is `am`"""
+    t = am["type"]
+    cls = matrix_class(dendropy, t)
+    nt = len(am["taxa"])
+    nc = max(len(r) for r in am["rows"])
+    labels = [lab(l) for l in am["taxa"]]
+    allrows = list(range(nt))
+    if op in ROW_OPS and nt < 2:
+        op = "extend_columns"
+    if op in ("extend_columns", "extend_sequences") and nc < 2:
+        op = "replace_sequences"
+    ns = dendropy.TaxonNamespace(labels)
+    first = lambda part: cls.from_dict(collections.OrderedDict((lab(l), _values(t, r)) for l, r in zip(part["taxa"], part["rows"])),
+                                       taxon_namespace=ns)
+    if op in ROW_OPS:
+        k = max(1, nt // 2)
+        T = first(_part(am, allrows[:k], 0, nc))
+        observe(T, obs)
+        rest = _part(am, allrows[k:], 0, nc)
+        if op in ("new_sequence", "setitem"):
+            for l, r in zip(rest["taxa"], rest["rows"]):
+                tx = ns.get_taxon(label=lab(l))
+                vals = T.coerce_values(_values(t, r))
+                if op == "new_sequence":
+                    T.new_sequence(tx, values=vals)
+                else:
+                    T[tx] = vals
+        else:
+            O = _from_dict_like(dendropy, T, rest)
+            if op == "extend_matrix":
+                T.extend_matrix(O)
+            elif op == "extend_sequences_new":
+                T.extend_sequences(O, is_add_new_sequences=True)
+            elif op == "add_sequences":
+                T.add_sequences(O)
+            else:
+                T.update_sequences(O)
+        return T
+    if op in ("extend_columns", "extend_sequences"):
+        kk = max(1, nc // 2)
+        T = first(_part(am, allrows, 0, kk))
+        observe(T, obs)
+        O = _from_dict_like(dendropy, T, _part(am, allrows, kk, nc))
+        if op == "extend_columns":
+            T.extend_matrix(O)
+        else:
+            T.extend_sequences(O)
+        return T
+    if op == "replace_sequences":
+        k = nt // 2
+        wrong = {"type": t, "taxa": am["taxa"], "rows": [am["rows"][i] if i < k else [junk] * len(am["rows"][i]) for i in allrows]}
+        T = first(wrong)
+        observe(T, obs)
+        T.replace_sequences(_from_dict_like(dendropy, T, _part(am, allrows[k:], 0, nc)))
+        return T
+    if op == "fill":
+        short = {"type": t, "taxa": am["taxa"], "rows": [list(r) for r in am["rows"]]}
+        last = short["rows"][-1].pop()
+        T = first(short)
+        observe(T, obs)
+        T.fill(value=(atom_value(last) if t == "continuous" else T.coerce_values(last)[0]), size=nc)
+        return T
+    if op in ("remove_sequences", "delitem"):
+        extra = "zz_extra"
+        ns.new_taxon(label=extra)
+        more = {"type": t, "taxa": am["taxa"] + [chars(extra)], "rows": am["rows"] + [[junk] * nc]}
+        T = first(more)
+        observe(T, obs)
+        tx = ns.get_taxon(label=extra)
+        if op == "remove_sequences":
+            T.remove_sequences([tx])
+        else:
+            del T[tx]
+        ns.remove_taxon(tx)
+        return T
+    raise ValueError(op)
 
 
 def build_self_combined(dendropy, M, how, am=None):
